@@ -38,7 +38,7 @@ static int text_may_spawn(const unsigned char *d, size_t n)
 
 static char tmpnames[32][320]; static int ntmpnames;
 static int bigdir; static long g_outlen = 22;
-static int cyc_fds, cyc_temps, cyc_dirs, cyc_streams;
+static int cyc_fds, cyc_temps, cyc_dirs, cyc_streams, cyc_spawnfiles;
 static void exec_c11(const plan_t *p)
 {
     uint32_t base_serial = 0;
@@ -76,7 +76,7 @@ static void exec_c11(const plan_t *p)
             conf_reset_mirror();
             simfs_set_call_failures((int)plan_get(p, "fdopen.fail", 0), (int)plan_get(p, "fchmod.fail", 0));      /* every cycle meets the same refusals, so a repeated cycle is still comparable */
             spifconf_init_subsystem();
-            cyc_fds = simfs_open_fds(); cyc_temps = simfs_live_temp_files(); cyc_dirs = simfs_open_dirs(); cyc_streams = simfd_open_streams();
+            cyc_fds = simfs_open_fds(); cyc_temps = simfs_live_temp_files(); cyc_dirs = simfs_open_dirs(); cyc_streams = simfd_open_streams(); cyc_spawnfiles = simfs_live_spawn_files();
             inited = 1; cycle++; cycle_from = conf_trace_count(); cycle_ops = 1469598103934665603ULL;
             tr_printf("init cycle %d", cycle);
         } else if (!strcmp(k, "free")) {
@@ -90,6 +90,16 @@ static void exec_c11(const plan_t *p)
             if (simfs_open_dirs() != cyc_dirs) sim_fail("INVARIANT(left-behind)", "%d directory handles opened during the cycle are still open after spifconf_free_subsystem()", simfs_open_dirs() - cyc_dirs);
             if (simfs_open_fds() != cyc_fds) sim_fail("INVARIANT(left-behind)", "%d temporary-file descriptors opened during the cycle are still open after spifconf_free_subsystem()", simfs_open_fds() - cyc_fds);
             if (simfs_live_temp_files() != cyc_temps) sim_fail("INVARIANT(left-behind)", "%d temporary files created during the cycle still exist after spifconf_free_subsystem()", simfs_live_temp_files() - cyc_temps);
+            if (simfs_live_spawn_files() != cyc_spawnfiles) {
+                /* a file that came into being because a command line the subsystem composed redirected its output there.  If the name is one
+                   the configuration text itself spelled out, that is the text's business; a name the subsystem made up is the subsystem's */
+                const char *nm = simfs_a_spawn_file(), *base = strrchr(nm, '/');
+                int spelled = 0;
+                base = base ? base + 1 : nm;
+                for (int j = 0; j < p->nops && !spelled; j++) if (p->ops[j].has_t && p->ops[j].t && *base && memmem(p->ops[j].t, p->ops[j].tlen, base, strlen(base))) spelled = 1;
+                if (!spelled) sim_fail("INVARIANT(left-behind)", "a command's output was sent to \"%.80s\", a name the configuration text does not contain, and the file still exists after spifconf_free_subsystem()", nm);
+                cyc_spawnfiles = simfs_live_spawn_files();
+            }
             if (sa_count_live_since(base_serial) || sa_live_count() != base_live) {
                 char buf[300];
                 size_t n = sa_report_live_since(base_serial, buf, sizeof(buf));
@@ -233,7 +243,7 @@ static void add_bytes(rng_t *r, size_t n, int mode)
 }
 static void gen_conf_file(plan_t *p, rng_t *r, const char *name, int allow_exec, int vars)
 {
-    int kind = (int)rng_below(r, 12), nl = rng_range(r, 0, 25), level = !strcmp(name, "root.cfg") ? 0 : !strcmp(name, "inc.cfg") ? 1 : 2, selfinc = 0, nincl = 0;
+    int kind = (int)rng_below(r, 12), nl = rng_range(r, 0, 25), level = !strcmp(name, "root.cfg") ? 0 : !strcmp(name, "inc.cfg") ? 1 : 2, selfinc = 0, nincl = 0, preproc_here = 0;
     op_t *o;
     gbn = 0;
     if (kind == 0) { /* empty file */ }
@@ -262,7 +272,7 @@ static void gen_conf_file(plan_t *p, rng_t *r, const char *name, int allow_exec,
                 if (++nincl > 3 || rng_chance(r, 1, 3)) add("%%include missing.cfg\n");      /* at most three real includes per file keeps the work per plan bounded */
                 else if (level == 0) add("%%include %s\n", rng_chance(r, 1, 2) ? "inc.cfg" : "sub/s.cfg");
                 else if (level == 1) add("%%include sub/s.cfg\n");
-                else if (!selfinc && rng_chance(r, 1, 4)) { add("%%include sub/s.cfg\n"); selfinc = 1; }
+                else if (!selfinc && !preproc_here && rng_chance(r, 1, 4)) { add("%%include sub/s.cfg\n"); selfinc = 1; }
             }
             else if (c < 72 && vars) add("%%put(k%d v%d)\n", rng_range(r, 0, 3), rng_range(r, 0, 9));
             else if (c < 78 && vars) {
@@ -336,7 +346,10 @@ static void gen_conf_file(plan_t *p, rng_t *r, const char *name, int allow_exec,
                 else add(rng_chance(r, 1, 2) ? "%%exec(echo hello   world)\n" : "x `echo back quoted` y\n");
             }
             else if (c < 94) { int n = rng_range(r, 120, 140); add(rng_chance(r, 1, 2) ? "n ${" : "n $"); for (int i = 0; i < n; i++) add("N"); add("} x\n"); }
-            else if (c < 95 && allow_exec && (level == 0 || rng_chance(r, 1, 3))) {      /* (in included files too: a preprocessed file above another one on the stack) */
+            else if (c < 95 && allow_exec && (level == 0 || rng_chance(r, 1, 3)) && !(level == 2 && selfinc)) {      /* (in included files too: a preprocessed file above another one on the stack) */
+                /* not in a file that includes itself, though: the preprocessed stream is the whole file again, its %include line with it, so
+                   every level would include itself twice and the parse, 255 levels deep, would take 2^255 steps to come back */
+                preproc_here = 1;
                 if (rng_chance(r, 1, 5)) { int n = rng_range(r, 4040, 4100); add("%%preproc cat"); for (int z = 0; z < n; z++) add("t"); add("\n"); }      /* command + file names around PATH_MAX */
                 else add("%%preproc cat\n");
             }
